@@ -19,7 +19,8 @@ Inductive op :=
 | OpMan                       (* Parser.WriteManPage, date pinned by SOURCE_DATE_EPOCH=86400 *)
 | OpComplete (args : list str)    (* ParseArgs with GO_FLAGS_COMPLETION set and a CompletionHandler *)
 | OpInspect                       (* dump of the public model *)
-| OpAttach (a : attach_op).       (* AddGroup / AddCommand / AddOption in the middle of a history *)
+| OpAttach (a : attach_op)        (* AddGroup / AddCommand / AddOption in the middle of a history *)
+| OpObserve.                      (* nothing happens: only the observations are taken *)
 
 Record scenario := {
   sc_cfg : pconfig;
@@ -351,6 +352,7 @@ Definition run_op (sc : scenario) (w : world) (o : op) : world * str * bool (* s
                   (line "model" (render_cmd (cmd_depth (w_tree w)) (pc_nsdelim (sc_cfg sc)) (pc_envdelim (sc_cfg sc)) (w_tree w))), false)
   | OpMan =>
     (w, render_op sc w "man" None None None (line "bytes" (hex_of_str (write_man (sc_cfg sc) (w_tree w) (s2l "2 January 1970")))), false)
+  | OpObserve => (w, render_op sc w "observe" None None None [], false)
   | OpAttach a =>
     match apply_attach (pc_nsdelim (sc_cfg sc)) w a with
     | Ok w' => (w', render_op sc w' "attach" None None None [], false)
